@@ -27,3 +27,14 @@ macro_rules! ready {
         }
     };
 }
+// the parameter stream of a dynamic adapter (`L: Stream<Item = usize>`): only the waker registration matters to the poll loop
+pub trait ParamStream {
+    spec fn parked(&self) -> Option<Waker>;
+    /// a new parameter value was delivered at some point
+    spec fn delivered(&self) -> bool;
+    fn poll_next(&mut self, cx: &mut Context<'_>) -> (r: Poll<Option<usize>>)
+        ensures
+            final(cx).spec_waker() == old(cx).spec_waker(),
+            r is Pending ==> final(self).parked() == Some(old(cx).spec_waker()),
+            final(self).delivered() == (old(self).delivered() || (r is Ready && r->Ready_0 is Some));
+}
